@@ -18,6 +18,11 @@ for rf in sorted(glob.glob("/tmp/seed/res-*.json")):
         rejected.append((name, {k: r.get(k) for k in ("applies", "demo_without_change", "demo_with_change", "pinned_suite_with_change")}))
         continue
     dst = os.path.join(ROOT, "seeded", name)
+    prev_checks = {}
+    try:
+        prev_checks = json.load(open(os.path.join(dst, "meta.json"))).get("verified", {}).get("checks", {})
+    except Exception:
+        pass
     shutil.rmtree(dst, ignore_errors=True)
     os.makedirs(dst)
     for root, _, files in os.walk(src):
@@ -36,6 +41,9 @@ for rf in sorted(glob.glob("/tmp/seed/res-*.json")):
                    "then `VERIF_REPO=<worktree with the change> bin/check <id> --tier quick` for the checks below",
         demo_files=r.get("demo_files"), demo_with_change_tail=r.get("demo_with_change_tail", "")[-300:],
         checks={c: dict(result=caught[c], wall_s=v.get("wall_s"), first_lines=v.get("lines", [])[:2]) for c, v in r.get("checks", {}).items() if isinstance(v, dict)})
+    # results of earlier runs against other checks are kept; a newer run of the same check replaces the older one
+    for k, v in prev_checks.items():
+        meta["verified"]["checks"].setdefault(k, v)
     json.dump(meta, open(os.path.join(dst, "meta.json"), "w"), indent=1)
     kept.append((name, caught))
 for k in kept:
